@@ -2,3 +2,5 @@ import ReqVerif.Model.Merge
 import ReqVerif.Props.C17
 import ReqVerif.Model.Select
 import ReqVerif.Props.C03
+import ReqVerif.Model.Tags
+import ReqVerif.Props.C20
